@@ -6,7 +6,8 @@ request and every batch of one entry over the full member alphabet (76 323 entri
 interleaving of batches of <= 3 (thorough: 4) class representatives through the worker pool, for
 inputs with >= 128 bytes of leading whitespace and for a server with batches disabled;
 (b) the model of the code AS IT IS (FixNonRequest = FALSE, a known finding; FixNotif and FixLongWs
-were repaired in /repo and are TRUE) satisfies the property with exactly that deviation switched
+were repaired in /repo and are TRUE; FixNullRequired follows the status of its finding in known_findings.json:
+listed known = FALSE, fixed / not listed = TRUE) satisfies the property with exactly that deviation switched
 in, and violates the pure property (expected counterexample);
 (c) positional == named and "operational argument builder == declarative reading" as ASSUMEs;
 (d) PARAMETER TYPE CLASSES x VALUE CLASSES x VALIDATOR (parseParam / validateParam): every params value of
@@ -30,9 +31,30 @@ as the node does; the handlers log a canonical text of the Go values they receiv
 byte-level mutants judged with encoding/json + the abstraction function + the exhaustive table.
 """
 import json
+import os
+import re
 import vlib
 
 FAMILY = "jsonrpc"
+# the finding "a JSON null for a REQUIRED pointer parameter reaches the handler as a nil pointer" (one key per type class)
+NULLREQ_KEYS = ["jsonrpc:null-for-required-pointer:" + c for c in ("pstruct", "pcustom", "pint")]
+
+
+def nullreq_known(ctx):
+    """FixNullRequired follows the status of that finding in known_findings.json: listed `known` = the model of the
+    code as it was found (FALSE); fixed / not listed = the repaired design (TRUE)."""
+    return any(k.get("status") == "known" and any(vlib.key_matches(k["key"], x) for x in NULLREQ_KEYS) for k in ctx.known)
+
+
+def asis(ctx, cfg):
+    """files= for a configuration of the code AS IT IS: the cfg text with FixNullRequired set from the finding's status."""
+    with open(os.path.join(vlib.VERIF, "spec", FAMILY, cfg)) as f:
+        text = f.read()
+    text, n = re.subn(r"FixNullRequired = (TRUE|FALSE)", "FixNullRequired = " + ("FALSE" if nullreq_known(ctx) else "TRUE"), text)
+    if n != 1:
+        raise vlib.Broken("%s does not set FixNullRequired exactly once" % cfg)
+    return {cfg: text}
+
 INVS = "TypeOK PShape POnePerEntry PResponses PTopLevel PInvocations PInFlight"
 
 
@@ -75,34 +97,41 @@ def run(ctx):
 
     # ---- (b) the code as it is (FixNonRequest = FALSE is a known finding; FixNotif / FixLongWs were
     # repaired in /repo): holds with the known deviation switched in; exports the rows to replay
-    t = ctx.tlc_check(FAMILY, "MCJsonRpcFull.tla", "JsonRpc_table.cfg", timeout=1500,
+    t = ctx.tlc_check(FAMILY, "MCJsonRpcFull.tla", "JsonRpc_table.cfg", timeout=1500, files=asis(ctx, "JsonRpc_table.cfg"),
                       label="as-is: singles + batches of one, full alphabet (exported)")
     rows = rows_of(t)
-    t2 = ctx.tlc_check(FAMILY, "JsonRpcMBT.tla", "JsonRpc_far.cfg", timeout=600, label="as-is: long leading whitespace (exported)")
+    t2 = ctx.tlc_check(FAMILY, "JsonRpcMBT.tla", "JsonRpc_far.cfg", timeout=600, files=asis(ctx, "JsonRpc_far.cfg"), label="as-is: long leading whitespace (exported)")
     rows += rows_of(t2)
-    t3 = ctx.tlc_check(FAMILY, "JsonRpcMBT.tla", "JsonRpc_nobatch.cfg", timeout=600, label="as-is: batches disabled (exported)")
+    t3 = ctx.tlc_check(FAMILY, "JsonRpcMBT.tla", "JsonRpc_nobatch.cfg", timeout=600, files=asis(ctx, "JsonRpc_nobatch.cfg"), label="as-is: batches disabled (exported)")
     rows += rows_of(t3)
     # parameter type classes x value classes x {validator, no validator} (typed methods; rows exported)
     for cfg, lab in (("JsonRpc_typed.cfg", "with the production validator"), ("JsonRpc_typed_noval.cfg", "without a validator")):
-        tt = ctx.tlc_check(FAMILY, "JsonRpcMBT.tla", cfg, timeout=600,
+        tt = ctx.tlc_check(FAMILY, "JsonRpcMBT.tla", cfg, timeout=600, files=asis(ctx, cfg),
                            label="as-is: typed parameters, %s (exported)" % lab)
         rows += rows_of(tt)
-    r = ctx.tlc_check(FAMILY, "MCJsonRpc.tla", "JsonRpc_batch_quick.cfg", timeout=1500, coverage=thorough,
+    r = ctx.tlc_check(FAMILY, "MCJsonRpc.tla", "JsonRpc_batch_quick.cfg", timeout=1500, coverage=thorough, files=asis(ctx, "JsonRpc_batch_quick.cfg"),
                       label="as-is: batches <= 3, pool 2")
     if thorough:
         vlib.require_actions_covered(r)
-        ctx.tlc_check(FAMILY, "MCJsonRpc.tla", "JsonRpc_batch_thorough.cfg", timeout=3000, label="as-is: batches <= 4, pool 2")
-        ctx.tlc_check(FAMILY, "MCJsonRpc.tla", "JsonRpc_batch_thorough3.cfg", timeout=3000, label="as-is: batches <= 4, pool 3")
+        ctx.tlc_check(FAMILY, "MCJsonRpc.tla", "JsonRpc_batch_thorough.cfg", timeout=3000, files=asis(ctx, "JsonRpc_batch_thorough.cfg"),
+                      label="as-is: batches <= 4, pool 2")
+        ctx.tlc_check(FAMILY, "MCJsonRpc.tla", "JsonRpc_batch_thorough3.cfg", timeout=3000, files=asis(ctx, "JsonRpc_batch_thorough3.cfg"),
+                      label="as-is: batches <= 4, pool 3")
     # against the PURE property TLC must exhibit the known deviation (and, thorough, the two repaired
     # ones on the pre-fix model)
     pure = [("JsonRpc_h8b.cfg", "PureStdCodes", "as-is vs pure property"),
             # the mechanism "a nil struct pointer is not handed to the validator" switched off: null for *T is refused
             ("JsonRpc_typed_nilptr.cfg", "PInvocations", "NilPointerSkipsValidation = FALSE")]
+    if nullreq_known(ctx):
+        pure += [("JsonRpc_typed_nullreq.cfg", "PureInvocations", "as-is vs pure property")]
     if thorough:
         pure += [("JsonRpc_h8.cfg", "PureNotifSilent", "pre-fix model vs pure property"),
                  ("JsonRpc_h8c.cfg", "PureBatchIsProcessed", "pre-fix model vs pure property")]
+        if not nullreq_known(ctx):
+            pure += [("JsonRpc_typed_nullreq.cfg", "PureInvocations", "pre-fix model vs pure property")]
     for cfg, inv, lab in pure:
-        h = ctx.tlc_check(FAMILY, "MCJsonRpc.tla", cfg, timeout=600, expect_violation=True, label="%s: %s" % (lab, inv))
+        h = ctx.tlc_check(FAMILY, "MCJsonRpc.tla", cfg, timeout=600, expect_violation=True, label="%s: %s" % (lab, inv),
+                          files=asis(ctx, cfg) if cfg == "JsonRpc_h8b.cfg" else None)
         if h["violated"] != inv:
             raise vlib.Broken("the model no longer exhibits the deviation %s (%s)" % (inv, h["violated"]))
         ctx.tlc_runs[-1]["expected_violation"] = inv
@@ -113,7 +142,7 @@ def run(ctx):
     batches = []
     for i in range(nruns):
         batches += ctx.tlc_simulate(FAMILY, "JsonRpcMBT.tla", "JsonRpc_sim.cfg", depth=depth,
-                                    seed=ctx.seed * 1000 + i, timeout=900)
+                                    seed=ctx.seed * 1000 + i, timeout=900, files=asis(ctx, "JsonRpc_sim.cfg"))
 
     payload = {"rows": rows, "batches": batches, "renderings": 3 if thorough else 1,
                "mutations": 400000 if thorough else 60000, "seed": ctx.seed, "selftest": True}
